@@ -2,6 +2,7 @@
 SPECIFICATION GenSpec
 CONSTANTS
   Modes = {"tcp", "udp"}
+  LogLevels = {"info", "debug"}
   MaxPkts = 4
   ValidateKnown = TRUE
   TcpDests <- BehTcpDests
